@@ -2,6 +2,7 @@
 //! `harness concrete <PROP> <instance> <float:0|1> k=v ...`
 mod util;
 mod props;
+mod selfcheck;
 
 use std::collections::BTreeMap;
 use symcore::*;
@@ -164,6 +165,12 @@ fn main() {
             let mut body = || props::body(&prop, &inst);
             let cr = run_concrete(cfg, float, &m, &mut body);
             println!("{{\"failures\":{},\"errors\":{},\"labels\":{},\"notes\":{},\"undecided\":{}}}", jlist(&cr.failures), jlist(&cr.errors), jlist(&cr.labels), jlist(&cr.notes), jlist(&cr.undecided));
+        }
+        "selfcheck" => {
+            let (n, bad) = selfcheck::run();
+            for b in &bad { println!("MISMATCH {}", b); }
+            println!("selfcheck: {} comparisons between the real crate at f64 and the derived crate at Sym (concrete f64), {} mismatches", n, bad.len());
+            std::process::exit(if bad.is_empty() { 0 } else { 2 });
         }
         _ => { eprintln!("unknown command"); std::process::exit(2); }
     }
